@@ -13,11 +13,10 @@ import (
 )
 
 func init() {
-	register("C14", "Decides: (R1) in the ExtendedDaemonSet reconciler the accumulator fields Ready/Current/Available are each written by exactly one `acc.X += item.Status.X` that executes for every item of the listed replica sets (before any filtering); Status.Current/Ready/Available are stored only from the like-named accumulator field; Status.Desired is stored only as <rs>.Status.Desired of the replica set whose name is stored to Status.ActiveReplicaSet, or incremented by <rs>.Status.Desired of the replica set whose name is stored to Status.Canary.ReplicaSet, on exactly the paths that store that name and after the base store; Status.UpToDate is stored only as <rs>.Status.Current of one of those two replica sets, the canary one on exactly the canary paths; (R2) in every strategy planner the stored NewStatus.Ready/Available/Current are per-node counters of one loop that are incremented only under IsPodReady(pod) / IsPodAvailable(pod) / compareCurrentPodWithNewPod(…, pod, …) of one pod of the iteration; where NewStatus.Desired is a counter (active and canary roles) it grows by exactly one per iteration and every feasible iteration path satisfies 0 <= dAvailable <= dReady <= dCurrent <= dDesired, using the lemma IsPodAvailable => IsPodReady (itself checked) to prune infeasible paths; every return of a planner whose error result is not known non-nil is dominated by the stores of those four counters (stale counters only accompany an error); (R3) decision tables: the condition-maintenance function sets Canary-Failed True iff failed and Canary-Paused True iff paused and not failed; the state function stores State 'Canary Failed' iff failed, otherwise during an active canary 'Canary Paused' iff paused else 'Canary', otherwise the non-canary state of the annotations; Status.Canary is cleared unless the canary is active; the active flag is true only without failure and with different active/up-to-date names.", runC14)
+	register("C14", "Decides: (R1) in the ExtendedDaemonSet reconciler the accumulator fields Ready/Current/Available are each written by exactly one `acc.X += item.Status.X` that executes for every item of the listed replica sets (before any filtering); Status.Current/Ready/Available are stored only from the like-named accumulator field; Status.Desired is stored only as <rs>.Status.Desired of the replica set whose name is stored to Status.ActiveReplicaSet, or incremented by <rs>.Status.Desired of the replica set whose name is stored to Status.Canary.ReplicaSet, on exactly the paths that store that name and after the base store; Status.UpToDate is stored only as <rs>.Status.Current of one of those two replica sets, the canary one on exactly the canary paths; (R2) in every strategy planner the stored NewStatus.Ready/Available/Current are per-node counters of one loop that are incremented only under IsPodReady(pod) / IsPodAvailable(pod) / a test that holds only when the pod's template-hash annotation equals a hash (inline, or a repository predicate every true path of which carries that equality, followed through nested predicates) of one pod of the iteration; where NewStatus.Desired is a counter (active and canary roles) it grows by exactly one per iteration and every feasible iteration path satisfies 0 <= dAvailable <= dReady <= dCurrent <= dDesired, using the lemma IsPodAvailable => IsPodReady (itself checked) to prune infeasible paths; every return of a planner whose error result is not known non-nil is dominated by the stores of those four counters (stale counters only accompany an error); (R3) decision tables: the condition-maintenance function sets Canary-Failed True iff failed and Canary-Paused True iff paused and not failed; the state function stores State 'Canary Failed' iff failed, otherwise during an active canary 'Canary Paused' iff paused else 'Canary', otherwise the non-canary state of the annotations; Status.Canary is cleared unless the canary is active; the active flag is true only without failure and with different active/up-to-date names.", runC14)
 }
 
 const fnEDSCondUpdate = pkgEDSCond + ".UpdateExtendedDaemonSetStatusCondition"
-const fnCompareCurrentPod = pkgStrategy + ".compareCurrentPodWithNewPod"
 
 // nameRootOf returns the object whose name v is (x.Name, x.ObjectMeta.Name, x.GetName()).
 func nameRootOf(v ssa.Value) ssa.Value {
@@ -94,19 +93,38 @@ type c14Acc struct {
 
 // c14Accumulate checks that alloc a (a struct of counters local to fn) is filled by one
 // `a.X += item.Status.X` per field, executed for every item of a listed replica-set list.
-func c14Accumulate(r *Run, a *ssa.Alloc, fn *ssa.Function) *c14Acc {
+func c14Accumulate(r *Run, a *ssa.Alloc, fn *ssa.Function, tr *ipTracer) *c14Acc {
 	res := &c14Acc{ok: map[string]bool{}, detail: map[string]string{}}
 	st, _ := a.Type().(*types.Pointer).Elem().Underlying().(*types.Struct)
 	if st == nil {
 		return res
 	}
 	loops := findLoops(fn)
-	// the lists filled by a List call of this function
-	listed := map[ssa.Value]bool{}
-	for _, ci := range callsIn(fn) {
-		if e := clientEffect(fn, ci); e != nil && e.Verb == "List" && e.Kind == pkgAPI+".ExtendedDaemonSetReplicaSetList" {
-			listed[unwrap(e.Obj)] = true
+	// isListed: the list value is (on every way it can reach this function: directly, through a
+	// parameter from every call site, or as the result of a repository helper) an object that a
+	// client List call of replica sets has filled.
+	isListed := func(v ssa.Value) bool {
+		n := 0
+		for _, lf := range tr.trace(v, fn) {
+			if isNilConst(lf.v) {
+				continue // error returns of a listing helper
+			}
+			al, ok := lf.v.(*ssa.Alloc)
+			if !ok {
+				return false
+			}
+			filled := false
+			for _, ci := range callsIn(lf.fn) {
+				if e := clientEffect(lf.fn, ci); e != nil && e.Verb == "List" && e.Kind == pkgAPI+".ExtendedDaemonSetReplicaSetList" && unwrap(e.Obj) == ssa.Value(al) {
+					filled = true
+				}
+			}
+			if !filled {
+				return false
+			}
+			n++
 		}
+		return n > 0
 	}
 	stores := map[string][]*ssa.Store{}
 	escapes := ""
@@ -188,7 +206,7 @@ func c14Accumulate(r *Run, a *ssa.Alloc, fn *ssa.Function) *c14Acc {
 		}
 		// the loop ranges over <list>.Items of a listed replica-set list
 		lroot, lpath := accessPath(l.rangeOver)
-		if !(len(lpath) == 1 && lpath[0] == "Items" && listed[lroot]) {
+		if !(len(lpath) == 1 && lpath[0] == "Items" && isListed(lroot)) {
 			res.detail[X] = "the loop does not range over the Items of the listed replica sets"
 			continue
 		}
@@ -285,6 +303,7 @@ func c14StatusTable(r *Run, reach map[*ssa.Function]bool) {
 		o := r.Check("C14.R1", "no whole-status assignment", "-", "-", "ExtendedDaemonSet.Status is written field by field in the code reachable from the reconciler", len(whole) == 0, strings.Join(whole, ", "))
 		o.Trivial = len(whole) == 0
 	}
+	tr := &ipTracer{reach: reach, depth: 8, descend: r.Prog.IsRuleSite}
 	accCache := map[*ssa.Alloc]*c14Acc{}
 	accReported := map[string]bool{}
 	type canarySite struct {
@@ -335,30 +354,30 @@ func c14StatusTable(r *Run, reach map[*ssa.Function]bool) {
 					r.Check("C14.R1", construct, pos, shortFunc(fn), need, false, detail)
 					continue
 				}
-				cs := callSitesOf(fn, reach)
-				okAll := len(cs) > 0
+				// the accumulator: wherever the parameter's value comes from (every call site, through
+				// helper results), it is the value of one local struct variable filled by the accumulation
+				leaves := tr.trace(p, fn)
+				okAll := len(leaves) > 0
 				detail := ""
-				for _, c := range cs {
-					arg := c.Common().Args[paramIndex(p)]
-					u, isU := arg.(*ssa.UnOp)
+				for _, lf := range leaves {
 					var al *ssa.Alloc
-					if isU && u.Op == token.MUL {
+					if u, isU := lf.v.(*ssa.UnOp); isU && u.Op == token.MUL {
 						al, _ = u.X.(*ssa.Alloc)
 					}
 					if al == nil {
 						okAll = false
-						detail = "the accumulator passed at " + r.Prog.Pos(c.Pos()) + " is not a local variable of the caller"
+						detail = "the accumulator comes from " + shortFunc(lf.fn) + ":" + pathString(lf.v) + ", which is not a local counter variable"
 						continue
 					}
 					acc := accCache[al]
 					if acc == nil {
-						acc = c14Accumulate(r, al, c.Parent())
+						acc = c14Accumulate(r, al, lf.fn, tr)
 						accCache[al] = acc
 					}
-					akey := shortFunc(c.Parent()) + "|" + F
+					akey := shortFunc(lf.fn) + "|" + F
 					if !accReported[akey] {
 						accReported[akey] = true
-						r.Check("C14.R1", "accumulate "+F, r.Prog.Pos(al.Pos()), shortFunc(c.Parent()),
+						r.Check("C14.R1", "accumulate "+F, r.Prog.Pos(al.Pos()), shortFunc(lf.fn),
 							"accumulator."+F+" += item.Status."+F+" exactly once, for every listed replica set", acc.ok[F], acc.detail[F])
 					}
 					if !acc.ok[F] {
@@ -580,8 +599,9 @@ func c14Planners(r *Run) {
 		guards := map[string]guard{
 			"Ready":     {fnIsPodReady, 0},
 			"Available": {fnIsPodAvailable, 0},
-			"Current":   {fnCompareCurrentPod, 1},
+			"Current":   {c14TemplateMatch, -1},
 		}
+		tmplMemo := map[string]bool{}
 		guardOK := map[string]bool{"Ready": true, "Available": true, "Current": true}
 		guardDetail := map[string]string{}
 		guardN := map[string]int{}
@@ -592,9 +612,27 @@ func c14Planners(r *Run) {
 			// facts about pods of this iteration, keyed by callee
 			subj := map[string]map[string]bool{} // callee -> subject key -> polarity
 			for _, f := range p.Facts {
+				// "the pod runs this replica set's template": the pod's template-hash annotation equals a
+				// hash, tested inline or inside a repository predicate that is true only in that case
+				if pod := c14HashEqSubject(r, f.V, inLoop); pod != nil {
+					if subj[c14TemplateMatch] == nil {
+						subj[c14TemplateMatch] = map[string]bool{}
+					}
+					subj[c14TemplateMatch][k.key(pod)] = f.Pol
+				}
 				c, isCall := f.V.(*ssa.Call)
 				if !isCall {
 					continue
+				}
+				if cal := staticCallee(&c.Call); cal != nil && r.Prog.IsRuleSite(cal) {
+					for i, a := range c.Call.Args {
+						if inLoop(a) && isPtrToNamed(a.Type(), pkgCoreV1, "Pod") && c14ImpliesTemplateMatch(r, cal, i, tmplMemo, 0) {
+							if subj[c14TemplateMatch] == nil {
+								subj[c14TemplateMatch] = map[string]bool{}
+							}
+							subj[c14TemplateMatch][k.key(unwrap(a))] = f.Pol
+						}
+					}
 				}
 				for _, g := range guards {
 					if calleeName(&c.Call) == g.callee && g.arg < len(c.Call.Args) && inLoop(c.Call.Args[g.arg]) {
@@ -740,6 +778,93 @@ func c14CountersOnSuccess(r *Run, fn *ssa.Function, sts []*ssa.Store) {
 		}
 		r.Check("C14.R2", construct, rpos, shortFunc(fn), need, len(missing) == 0, detail)
 	}
+}
+
+// c14TemplateMatch names the semantic guard "the pod's template-hash annotation equals a hash".
+const c14TemplateMatch = "<template-hash match>"
+
+// c14HashEqSubject: v is `<pod>.Annotations[MD5ExtendedDaemonSetAnnotationKey] == x` for a pod accepted
+// by isPod; returns that pod.
+func c14HashEqSubject(r *Run, v ssa.Value, isPod func(ssa.Value) bool) ssa.Value {
+	x, y, ok := eqOperands(v)
+	if !ok {
+		return nil
+	}
+	key, _ := r.Prog.constStr(pkgAPI, "MD5ExtendedDaemonSetAnnotationKey")
+	for _, side := range []ssa.Value{x, y} {
+		side = unwrap(side)
+		if e, isE := side.(*ssa.Extract); isE && e.Index == 0 {
+			side = e.Tuple
+		}
+		l, isL := side.(*ssa.Lookup)
+		if !isL {
+			continue
+		}
+		if s, isS := constString(l.Index); !isS || s != key {
+			continue
+		}
+		var pod ssa.Value
+		if annotationsOf(func(o ssa.Value) bool {
+			if isPtrToNamed(o.Type(), pkgCoreV1, "Pod") && isPod(o) {
+				pod = o
+				return true
+			}
+			return false
+		})(l.X) {
+			return pod
+		}
+	}
+	return nil
+}
+
+// c14ImpliesTemplateMatch: every path on which fn returns true carries the template-hash equality
+// of its parameter #podIdx, directly or through another repository predicate called with that pod.
+func c14ImpliesTemplateMatch(r *Run, fn *ssa.Function, podIdx int, memo map[string]bool, depth int) bool {
+	if podIdx >= len(fn.Params) || depth > 3 || len(fn.Blocks) == 0 {
+		return false
+	}
+	res := fn.Signature.Results()
+	if res.Len() != 1 {
+		return false
+	}
+	if b, isB := res.At(0).Type().Underlying().(*types.Basic); !isB || b.Kind() != types.Bool {
+		return false
+	}
+	mk := fmt.Sprintf("%s#%d", funcName(fn), podIdx)
+	if v, ok := memo[mk]; ok {
+		return v
+	}
+	memo[mk] = false
+	pod := fn.Params[podIdx]
+	isPod := func(v ssa.Value) bool { return unwrap(v) == ssa.Value(pod) }
+	paths, ok := truePaths(fn, 0, 2000)
+	r.paths += len(paths)
+	good := ok && len(paths) > 0
+	for _, p := range paths {
+		found := false
+		for _, f := range p.Facts {
+			if !f.Pol {
+				continue
+			}
+			if c14HashEqSubject(r, f.V, isPod) != nil {
+				found = true
+			}
+			if c, isCall := f.V.(*ssa.Call); isCall {
+				if cal := staticCallee(&c.Call); cal != nil && r.Prog.IsRuleSite(cal) {
+					for i, a := range c.Call.Args {
+						if isPod(a) && c14ImpliesTemplateMatch(r, cal, i, memo, depth+1) {
+							found = true
+						}
+					}
+				}
+			}
+		}
+		if !found {
+			good = false
+		}
+	}
+	memo[mk] = good
+	return good
 }
 
 func shortName(callee string) string {
@@ -1045,7 +1170,7 @@ func c14ActivePredicate(r *Run, call *ssa.Call) {
 	}
 	a, b := nameRootOf(call.Call.Args[paramIndex(names[0])]), nameRootOf(call.Call.Args[paramIndex(names[1])])
 	distinct := a != b
-	paths, _, ok := funcPaths(fn, 5000)
+	paths, ok := truePaths(fn, 0, 5000)
 	r.paths += len(paths)
 	good := ok && distinct
 	detail := ""
@@ -1054,11 +1179,6 @@ func c14ActivePredicate(r *Run, call *ssa.Call) {
 	}
 	n := 0
 	for _, p := range paths {
-		ret := returnOf(p.Blocks[len(p.Blocks)-1])
-		res := p.Resolve(ret.Results[0])
-		if bv, isC := constBool(res); isC && !bv {
-			continue
-		}
 		n++
 		failed, fk := paramFact(p, failedP)
 		differ := p.Has(false, func(v ssa.Value, _ string) bool { return isEqCompare(v, isParam(names[0]), isParam(names[1])) })
